@@ -114,24 +114,20 @@ theorem rs_call_nil (fuel : Nat) (env : Env) (j : Nat) (gv : Val)
   simp [rsCall, «urcu_common_reader_state», block, exec, eval, evalArgs, execPrim, bind, Except.bind, asLoc, Env.setVar,
       bindParams, setDst, evalUn, Val.truthy, hi, hg]
 
-def rsErrMsg : Val → String
-  | .ptr _ => "binary operator on these operand kinds: not in the subset"
-  | .int _ => "band of a negative operand"
-
 /-- a word that is not a non-negative integer makes the IR fail (bitwise operators are defined on non-negative integers
 only): such oracles are outside every theorem about `.ok` runs -/
 theorem rs_call_err (fuel : Nat) (env : Env) (v : Val) (rest : List Val) (j : Nat) (gv : Val)
     (hi : env.vars "index" = some (.ptr (.obj j))) (hg : env.vars "group" = some gv)
-    (hv : ∀ w, v = .int w → w < 0) : exec fuel rsCall env (v :: rest) = .error (rsErrMsg v) := by
+    (hv : ∀ w, v = .int w → w < 0) (out : Out) : exec fuel rsCall env (v :: rest) ≠ .ok out := by
   cases v with
   | ptr l =>
     simp [rsCall, «urcu_common_reader_state», block, exec, eval, evalArgs, execPrim, bind, Except.bind, asLoc, Env.setVar,
-      bindParams, setDst, evalUn, Val.truthy, hi, hg, evalBin, rsErrMsg]
+      bindParams, setDst, evalUn, Val.truthy, hi, hg, evalBin]
   | int w =>
     have := hv w rfl
     have h2 : ¬ (0 ≤ w) := by omega
     simp [rsCall, «urcu_common_reader_state», block, exec, eval, evalArgs, execPrim, bind, Except.bind, asLoc, Env.setVar,
-      bindParams, setDst, evalUn, Val.truthy, hi, hg, evalBin, h2, rsErrMsg]
+      bindParams, setDst, evalUn, Val.truthy, hi, hg, evalBin, h2]
 
 /-- `urcu_common_reader_state(gp, ctr, group)` on its own: ONE load of `*ctr` (relaxed), and the answer is L2's scan guard
 on the loaded word `(nest, ph) = decW w` against the phase `g` of the plain-read `gp->ctr`:
@@ -252,8 +248,10 @@ theorem scanRest_holds (trk : Bool) (n : Nat) (c : Ctx) (env : Env) (inp : List 
     simp [Ok_nil_iff, ScanPost]
   | cons v rest2 =>
     by_cases hv : ∀ w, v = .int w → w < 0
-    · rw [rs_call_err (n+1) _ v rest2 k c.gv (by simp [hi]) (by simp [hg]) hv] at ho
-      simp at ho
+    · generalize hrs : exec (n + 1) rsCall _ (v :: rest2) = R at ho
+      cases R with
+      | error m => simp at ho
+      | ok o => exact absurd hrs (rs_call_err (n+1) _ v rest2 k c.gv (by simp [hi]) (by simp [hg]) hv o)
     · have : ∃ w, v = .int w ∧ 0 ≤ w := by
         cases v with
         | int w => exact ⟨w, rfl, by
